@@ -6,6 +6,7 @@
 //!   simcheck replay-exec <FILE> --root DIR                           (internal)
 
 mod engine;
+mod engine_blob;
 mod engine_io;
 mod json;
 mod prng;
@@ -20,7 +21,7 @@ use std::process::{Command, Stdio};
 use std::time::{Duration, Instant};
 
 fn engines() -> Vec<Box<dyn Engine>> {
-    vec![Box::new(engine_io::IoEngine)]
+    vec![Box::new(engine_io::IoEngine), Box::new(engine_blob::BlobEngine)]
 }
 
 fn engine_for(id: &str) -> Option<Box<dyn Engine>> {
